@@ -181,6 +181,8 @@ Outcome RunC20(RunCtx& ctx)
 					BuildProgram(s, sim::L_PROG, n, ProgStyle::Shuffle, sc.archive);
 					n.program.resize(1 + s.draw(sim::L_PROG, static_cast<uint32_t>(n.program.size())));
 				}
+				// arrays left partly read (what a std::bitset/std::tuple/early-stopping SerializeArray does with a longer array)
+				if (n.kind == K::Arr && !n.items.empty() && s.chance(sim::L_PROG, 1, 3)) n.readCount = static_cast<int32_t>(s.draw(sim::L_PROG, static_cast<uint32_t>(n.items.size())));
 			});
 		}
 	}
@@ -211,6 +213,30 @@ Outcome RunC20(RunCtx& ctx)
 		SubResult again = rerun();   // first-use statics are not leaks: a leak must repeat
 		if (again.leakBlocks == 0) return Outcome();
 		return Violation("LEAK", tags, at + ": " + std::to_string(again.leakBlocks) + " blocks / " + std::to_string(again.leakBytes) + " bytes still allocated after the exception was handled and every object destroyed (" + r.r.cat + ")");
+	};
+
+	// combined faults: while the library is reporting an error it detected itself, the k-th allocation fails as well (the handlers
+	// and destructors that defer or rebuild the error run under memory pressure); at most 3 error sites per run get the full sweep
+	const bool combine = kind >= F_LIB_CSV_WIDTH && s.chance(sim::L_FAULT, 1, 2);
+	uint32_t combined = 0;
+	auto allocUnderError = [&](const SubResult& first, const std::function<SubResult(uint64_t)>& run, const std::string& tags, const std::string& at) -> Outcome
+	{
+		if (!combine || first.r.ok || combined >= 3) return Outcome();
+		++combined;
+		sim::probe("alloc-fault-while-reporting-error");
+		for (uint64_t k = 1; k <= first.allocs && k <= 600; ++k)
+		{
+			++positions;
+			SubResult r = run(k);
+			const std::string at2 = at + " and allocation #" + std::to_string(k) + " of " + std::to_string(first.allocs) + " fails";
+			if (!AllowedException(r.r)) return Violation("WRONG_EXCEPTION", tags + " combined=alloc", at2 + ": non-std exception");
+			if (r.r.ok) return Violation("SILENT_FAILURE", tags + " combined=alloc what=error_lost", at2 + ": the operation returned normally although the error is still there");
+			if (r.r.cat != "bad_alloc" && r.r.cat.compare(0, 4, "ser:") != 0)
+				return Violation("WRONG_EXCEPTION", tags + " combined=alloc what=type got=" + r.r.cat, at2 + ": expected std::bad_alloc or a SerializationException, got " + r.r.cat + " (" + r.r.what + ")");
+			Outcome lk = leakCheck(r, [&] { return run(k); }, tags + " combined=alloc", at2);
+			if (lk.violation) return lk;
+		}
+		return Outcome();
 	};
 
 	switch (kind)
@@ -376,6 +402,8 @@ Outcome RunC20(RunCtx& ctx)
 				Outcome lk = leakCheck(r, [&] { return DoSave(sc, &alt, {}, 0); }, tags, at);
 				if (lk.violation) return lk;
 				if (!r.r.ok) out.nontrivial = true;
+				Outcome cb = allocUnderError(r, [&](uint64_t k) { return DoSave(sc, &alt, {}, k); }, tags, at);
+				if (cb.violation) return cb;
 			}
 		}
 		ctx.count("fault.lib_csv_width", positions);
@@ -422,6 +450,8 @@ Outcome RunC20(RunCtx& ctx)
 			Outcome lk = leakCheck(r, [&] { return DoLoad(sc, faulted, {}, false, 0); }, tags, at);
 			if (lk.violation) return lk;
 			if (!r.r.ok) out.nontrivial = true;
+			Outcome cb = allocUnderError(r, [&](uint64_t k) { return DoLoad(sc, faulted, {}, false, k); }, tags, at);
+			if (cb.violation) return cb;
 		}
 		ctx.count("fault.lib_mismatch", positions);
 		break;
@@ -445,6 +475,10 @@ Outcome RunC20(RunCtx& ctx)
 			Outcome lk = leakCheck(r, [&] { return DoSave(sc, &alt, {}, 0); }, tags, at);
 			if (lk.violation) return lk;
 			if (!r.r.ok) out.nontrivial = true;
+			{
+				Outcome cb = allocUnderError(r, [&](uint64_t k) { return DoSave(sc, &alt, {}, k); }, tags, at);
+				if (cb.violation) return cb;
+			}
 			*sn = saved;
 		}
 		ctx.count("fault.lib_bad_utf", positions);
@@ -468,6 +502,10 @@ Outcome RunC20(RunCtx& ctx)
 			Outcome lk = leakCheck(r, [&] { return DoSave(sc, &alt, {}, 0); }, tags, at);
 			if (lk.violation) return lk;
 			out.nontrivial = true;
+			{
+				Outcome cb = allocUnderError(r, [&](uint64_t k) { return DoSave(sc, &alt, {}, k); }, tags, at);
+				if (cb.violation) return cb;
+			}
 			an2->sizeLie = 0;
 		}
 		ctx.count("fault.lib_size_lie", positions);
